@@ -21,6 +21,8 @@ pub enum JOp {
     Rounds(u8),
     /// clone instance k into a new instance (C16)
     Clone,
+    /// `dst.clone_from(&src)` into an existing instance; payload = source index (C16)
+    CloneFrom(usize),
 }
 impl JOp {
     pub fn show(&self) -> String {
@@ -31,6 +33,7 @@ impl JOp {
             JOp::Stats(v) => format!("timer_stats({})", v),
             JOp::Rounds(r) => format!("set_rounds({})", r),
             JOp::Clone => "clone".into(),
+            JOp::CloneFrom(s) => format!("clone_from(#{})", s),
         }
     }
 }
@@ -69,7 +72,7 @@ fn real_apply<F: Fn() -> u64 + Send + Sync>(g: &mut JitterRng<F>, op: &JOp) -> J
             g.set_rounds(*r);
             JOut::Unit
         }
-        JOp::Clone => JOut::Unit,
+        JOp::Clone | JOp::CloneFrom(_) => JOut::Unit,
     }
 }
 
@@ -83,7 +86,7 @@ fn model_apply(m: &mut Jitter, op: &JOp, cur: &mut ScriptCursor, st: &mut Collec
             m.rounds = *r;
             JOut::Unit
         }
-        JOp::Clone => JOut::Unit,
+        JOp::Clone | JOp::CloneFrom(_) => JOut::Unit,
     }
 }
 
@@ -930,7 +933,8 @@ fn c16_case(sub: &str, id: u64, r: &mut Report) {
             0..=4 => JOp::U32,
             5..=6 => JOp::U64,
             7..=9 => JOp::Fill(p.below(18) as usize),
-            _ => if reals.len() < 3 { JOp::Clone } else { JOp::U32 },
+            10 => if reals.len() < 3 { JOp::Clone } else { JOp::U32 },
+            _ => if reals.len() >= 2 { JOp::CloneFrom((k + 1 + p.below(reals.len() as u64 - 1) as usize) % reals.len()) } else { JOp::Clone },
         };
         log.push(format!("#{}:{}", k, op.show()));
         if op == JOp::Clone {
@@ -943,6 +947,26 @@ fn c16_case(sub: &str, id: u64, r: &mut Report) {
             if pending[k].is_some() {
                 r.cov("clone_while_half_pending");
             }
+            continue;
+        }
+        if let JOp::CloneFrom(src) = op {
+            // Clone::clone_from is part of Clone: the destination becomes a clone
+            // of the source, so whatever half either of them held, its first
+            // output afterwards must come from a fresh collection
+            let (dst_had, src_has) = (pending[k].is_some(), pending[src].is_some());
+            if src < k {
+                let (a, b) = reals.split_at_mut(k);
+                b[0].clone_from(&a[src]);
+            } else {
+                let (a, b) = reals.split_at_mut(src);
+                a[k].clone_from(&b[0]);
+            }
+            models[k] = models[src].clone_model();
+            pending[k] = None;
+            owed[k] = None;
+            r.cov("op:clone_from");
+            if dst_had { r.cov("clone_from_into_instance_with_pending_half"); }
+            if src_has { r.cov("clone_from_source_with_pending_half"); }
             continue;
         }
         let calls_before = timer.calls();
@@ -1073,7 +1097,8 @@ pub fn run_c16(ctx: &Ctx, only: Option<&Only>) -> Report {
     }
     let secs = if ctx.tier_thorough { ctx.budget_s } else { 0.0 };
     let mut total = drive(ctx, "ledger", 24_000, secs, |id, r| c16_case("ledger", id, r));
-    for k in ["op:u32", "op:u64", "op:fill", "op:clone", "pending_half_served", "clone_while_half_pending", "fresh_collection_on_clone"] {
+    for k in ["op:u32", "op:u64", "op:fill", "op:clone", "op:clone_from", "clone_from_into_instance_with_pending_half", "clone_from_source_with_pending_half",
+              "pending_half_served", "clone_while_half_pending", "fresh_collection_on_clone"] {
         total.floor(k, 100);
     }
     for rr in [1, 2, 3, 64, 255] {
